@@ -215,6 +215,19 @@ pub mod ticker {
         }
     }
 
+    /// Has a cache taken the manual ticker yet? (An async processor only does so once its task runs.)
+    pub fn manual_installed() -> bool {
+        #[cfg(feature = "sync")]
+        if lock(&MANUAL_SYNC).is_some() {
+            return true;
+        }
+        #[cfg(feature = "async")]
+        if lock(&MANUAL_ASYNC).is_some() {
+            return true;
+        }
+        false
+    }
+
     /// Feed one tick to the manual ticker; false if none is installed or its cache is gone.
     pub fn tick() -> bool {
         #[cfg(feature = "sync")]
